@@ -665,6 +665,12 @@ class HookEval:
                 lv = self.free_value(left.id)
                 if isinstance(lv, str):
                     left = ast.copy_location(ast.Constant(value=lv), left)
+            if isinstance(right, ast.Name) and self.path_of(right, extra) is None:
+                rv = self.free_value(right.id)
+                if isinstance(rv, (str, int)) and not isinstance(rv, bool):
+                    right = ast.copy_location(ast.Constant(value=rv), right)
+                elif isinstance(rv, (tuple, list, set, frozenset)) and all(isinstance(x, (str, int)) for x in rv):
+                    right = ast.copy_location(ast.Tuple(elts=[ast.Constant(value=x) for x in rv], ctx=ast.Load()), right)
             # "k" in X / "k" not in X
             if isinstance(op, (ast.In, ast.NotIn)) and isinstance(left, ast.Constant) and isinstance(left.value, str):
                 p = self.path_of(right, extra)
@@ -782,6 +788,14 @@ class HookEval:
             if v[0] == "error":
                 return v
             return self._isinstance(w, p, v, set(names))
+        if isinstance(node, ast.Name) and node.id in self.localexprs and self.path_of(node, extra) is None:
+            expr, ex = self.localexprs[node.id]
+            return self.truth(expr, w, {**ex, **(extra or {})})
+        # a closure flag / folded local used as a test (`if accept_primitives and ...`)
+        if isinstance(node, ast.Name) and self.path_of(node, extra) is None:
+            fv = self.free_value(node.id)
+            if fv is not self._NOVALUE and isinstance(fv, (bool, int, str, type(None), tuple, list, dict, frozenset, set)):
+                return bool(fv)
         # truthiness of a value
         p = self.path_of(node, extra)
         if p is not None:
@@ -1127,6 +1141,10 @@ class HookEval:
         for st in body:
             if isinstance(st, ast.Expr) and isinstance(st.value, ast.Constant):
                 continue
+            if isinstance(st, ast.AnnAssign):
+                if st.value is None:
+                    continue
+                st = ast.copy_location(ast.Assign(targets=[st.target], value=st.value), st)     # `x: T = v`
             if isinstance(st, ast.Pass):
                 continue
             if isinstance(st, ast.Return):
@@ -1165,8 +1183,10 @@ class HookEval:
                     if v is not self._NOVALUE:
                         self.localvals[st.targets[0].id] = v
                         continue
-                if isinstance(st.value, ast.IfExp):
-                    # `item_type = A if <test on the input> else B`: resolved where it is used as a structure target
+                if isinstance(st.value, (ast.IfExp, ast.BoolOp, ast.Compare, ast.UnaryOp)) or (
+                        isinstance(st.value, ast.Call) and dotted(st.value.func) in ("isinstance", "any", "all", "len", "bool")):
+                    # `item_type = A if <test on the input> else B` / `is_command = "command" in object_ and ...`:
+                    # kept as an expression and resolved in the world where it is used
                     self.localexprs[st.targets[0].id] = (st.value, dict(extra or {}))
                     continue
             if isinstance(st, ast.Try):
@@ -1333,6 +1353,21 @@ class HookEval:
                 return Leaf("empty", node=node, tuple=isinstance(node, ast.Tuple))
             subs = [self._leaf(e, w, extra) for e in node.elts]
             return Leaf("tuple" if isinstance(node, ast.Tuple) else "listlit", node=node, items=subs)
+        # list(map(<converter>.structure, X, itertools.repeat(T)))  ==  [<converter>.structure(x, T) for x in X]
+        if isinstance(node, ast.Call) and dotted(node.func) in ("list", "tuple") and len(node.args) == 1 \
+                and isinstance(node.args[0], ast.Call) and dotted(node.args[0].func) == "map" and len(node.args[0].args) == 3:
+            mp = node.args[0]
+            f_, xs, rep = mp.args
+            is_struct = dotted(f_) == f"{self.conv}.structure" or (isinstance(f_, ast.Name) and f_.id in self.conv_aliases)
+            if is_struct and isinstance(rep, ast.Call) and (dotted(rep.func) or "").split(".")[-1] == "repeat" and len(rep.args) == 1:
+                p = self.path_of(xs, extra)
+                if p is not None:
+                    var = "__map_item__"
+                    elt = ast.Call(func=f_, args=[ast.Name(id=var, ctx=ast.Load()), rep.args[0]], keywords=[])
+                    ast.copy_location(elt, node)
+                    ast.fix_missing_locations(elt)
+                    return Leaf("each", node=node, path=p, var=var, elt=elt, ifs=[],
+                                frames=[dict(f) for f in self.valenv], extra=dict(extra or {}))
         if isinstance(node, ast.ListComp) and len(node.generators) == 1:
             g = node.generators[0]
             if isinstance(g.target, ast.Name) and not g.is_async:
